@@ -157,29 +157,96 @@ def _write_file(fd, fsr):
     return key, _FILES[key][0]
 
 
+def _header_rate(inp):
+    """rate written into the WAV header"""
+    return inp["fsr"]
+
+
+def _num(x, how="float"):
+    """the number `x` (a Fraction) as the caller hands it over: Python float (default), int when it is whole,
+    numpy float64 / float32 (float32 only when exact), numpy int64 when whole"""
+    import numpy as np
+    x = Fraction(x)
+    f = float(x)
+    if how == "int" and x.denominator == 1:
+        return int(x)
+    if how == "np64":
+        return np.float64(f)
+    if how == "np32" and Fraction(float(np.float32(f))) == x:
+        return np.float32(f)
+    if how == "npint" and x.denominator == 1:
+        return np.int64(int(x))
+    return f
+
+
+def _via(obj, how):
+    """the same pydantic object reached through another construction path"""
+    if how == "validate":
+        return type(obj).model_validate(obj.model_dump())
+    if how == "json":
+        return type(obj).model_validate_json(obj.model_dump_json())
+    if how == "copy":
+        return obj.model_copy(deep=True)
+    return obj
+
+
 def _recording(inp):
+    """the Recording of a case.  Default: `Recording.from_file` (samplerate = int(header rate x expansion)).
+    With `"rsr"`: built directly with the recording's own samplerate `rsr`, the file header carrying
+    `fsr = floor(rsr / te)` as recorders of time-expanded audio write it - the expansion factor need not divide
+    the samplerate (44100 / 8 -> header 5512), so `int(header x te) != samplerate`."""
     from soundevent import data
     fsr = inp["fsr"]
     te = frac(inp.get("te", "1"))
     key, path = _write_file(inp["file"], fsr)
-    k = (key, te)
+    k = (key, te, inp.get("rsr"))
     if k not in _RECS:
         tef = int(te) if te.denominator == 1 else float(te)
-        _RECS[k] = data.Recording.from_file(path, time_expansion=tef, compute_hash=False)
+        if "rsr" in inp:
+            n = _nframes(inp["file"])
+            _RECS[k] = data.Recording(path=path, samplerate=inp["rsr"], duration=n / inp["rsr"],
+                                      channels=inp["file"]["ch"], time_expansion=tef)
+        else:
+            _RECS[k] = data.Recording.from_file(path, time_expansion=tef, compute_hash=False)
     return k, _RECS[k]
 
 
+def _nframes(fd):
+    return len(fd["frames"]) if "frames" in fd else fd["n"]
+
+
+def _clip_of(rec, inp):
+    """the Clip of a case: numbers as `inp["num"]` says, object reached through `inp["via"]`"""
+    from soundevent import data
+    num, via = inp.get("num", "float"), inp.get("via", "ctor")
+    s, e = _num(frac(inp["s"]), num), _num(frac(inp["e"]), num)
+    if via == "copy_update":
+        # a clip that had other bounds before: nothing remembered from them may survive
+        clip = data.Clip(recording=rec, start_time=0.0, end_time=max(float(e), 1.0))
+        return clip.model_copy(update={"start_time": float(s), "end_time": float(e)})
+    if via == "assign":
+        clip = data.Clip(recording=rec, start_time=0.0, end_time=max(float(e), 1.0))
+        clip.start_time, clip.end_time = float(s), float(e)
+        return clip
+    return _via(data.Clip(recording=rec, start_time=s, end_time=e), via)
+
+
 def _relocated(rec, inp):
-    """`"ad": true`: the recording carries a relative path, the directory is passed as `audio_dir`"""
+    """`"ad": true`: the recording carries a relative path, the directory is passed as `audio_dir`
+    (a `str`, or a `pathlib.Path` with `"ad": "path"`)"""
     if not inp.get("ad"):
         return rec, {}
     from pathlib import Path
     full = str(rec.path)
-    return rec.model_copy(update={"path": Path(os.path.basename(full))}), {"audio_dir": os.path.dirname(full)}
+    d = os.path.dirname(full)
+    return rec.model_copy(update={"path": Path(os.path.basename(full))}), {"audio_dir": Path(d) if inp["ad"] == "path" else d}
 
 
 def _sr(inp):
-    """the recording's own samplerate `int(file rate x expansion)`"""
+    """the recording's own samplerate: `int(file rate x expansion)` (`Recording.from_file`) or the one the
+    recording was built with (`"rsr"`)"""
+    if "rsr" in inp:
+        return inp["rsr"]
     return int(Fraction(inp["fsr"]) * frac(inp.get("te", "1")))
 
 
@@ -234,23 +301,86 @@ def _resample_safe(sr, n, target):
     return _same_cell(Fraction(n * target, sr), n * (target * step))
 
 
+# ---------------------------------------------------------------------- how the functions are called
+_REQ = object()
+# Python mirror of the documented signatures `SE.Audio.signatures` (stage `signatures` checks that it *is* that
+# table, and a Tie-1 obligation that the current source's `inspect.signature` is): parameter order for
+# positional calls, and the documented defaults to fill skipped optional parameters with
+DOC_SIGNATURES = {
+    "load_recording": [("recording", _REQ), ("audio_dir", None)],
+    "load_clip": [("clip", _REQ), ("audio_dir", None)],
+    "resample": [("array", _REQ), ("target_samplerate", _REQ), ("window", None), ("dim", "time")],
+    "compute_spectrogram": [("audio", _REQ), ("window_size", _REQ), ("hop_size", _REQ), ("window_type", "hann"),
+                            ("detrend", False), ("padded", True), ("boundary", "zeros")],
+}
+
+
+def _call(name, fn, style, given):
+    """call `fn` with the arguments `given` (documented name -> value): `"mixed"` = required arguments
+    positionally, options by keyword (how the library's own tests call it); `"kw"` = everything by keyword;
+    `"pos"` = everything positionally in the *documented* order, skipped options filled with the documented default"""
+    sig = DOC_SIGNATURES[name]
+    if style == "kw":
+        return fn(**given)
+    if style == "pos":
+        last = max(i for i, (n, _d) in enumerate(sig) if n in given)
+        return fn(*[given[n] if n in given else d for n, d in sig[:last + 1]])
+    req = [given[n] for n, d in sig if d is _REQ]
+    return fn(*req, **{n: v for n, v in given.items() if dict(sig)[n] is not _REQ})
+
+
+def _fn(name):
+    from soundevent import audio
+    from soundevent.audio import operations
+    return {"load_clip": audio.load_clip, "load_recording": audio.load_recording,
+            "compute_spectrogram": audio.compute_spectrogram, "resample": operations.resample}[name]
+
+
+def _spec_given(audio, inp):
+    num = inp.get("num", "float")
+    given = {"audio": audio, "window_size": _num(frac(inp["w"]), num), "hop_size": _num(frac(inp["h"]), num)}
+    given.update(inp.get("opts") or {})
+    return given
+
+
+def _resample_given(array, inp, target):
+    tnum = inp.get("tnum", "int")
+    t = {"int": int(target), "float": float(target), "np64": None, "npint": None, "npint32": None}.get(tnum, int(target))
+    if t is None:
+        import numpy as np
+        t = {"np64": np.float64(target), "npint": np.int64(target), "npint32": np.int32(target)}[tnum]
+    given = {"array": array, "target_samplerate": t}
+    if "window" in inp:
+        w = inp["window"]
+        given["window"] = tuple(w) if isinstance(w, list) else w
+    if inp.get("dim"):
+        given["dim"] = "time"
+    return given
+
+
 # ---------------------------------------------------------------------- implementations
-def _impl_load_clip(inp):
-    from soundevent import data
-    from soundevent.audio import load_clip
-    import soundfile as sf
-    _k, rec = _recording(inp)
+def _load_clip_call(rec, inp):
     rec, kw = _relocated(rec, inp)
-    clip = data.Clip(recording=rec, start_time=float(frac(inp["s"])), end_time=float(frac(inp["e"])))
-    try:
-        arr = load_clip(clip, **kw)
-    except sf.LibsndfileError:
-        return {"raise": "seek"}
+    clip = _clip_of(rec, inp)
+    return _call("load_clip", _fn("load_clip"), inp.get("call", "mixed"), {"clip": clip, **kw}), rec, clip
+
+
+def _clip_out(arr, rec):
     if arr.dims != ("time", "channel") or list(arr.channel.data) != list(range(arr.shape[1])):
         return {"raise": "crash:dims", "trace": f"dims {arr.dims}, channel coordinate {list(arr.channel.data)}"}
     return {"val": {"frames": _codes_out(arr.data), "times": _rats(arr.time.data),
                     "step": rat(float(arr.time.attrs["step"]))},
             "aux": {"rec_sr": rec.samplerate, "channels": int(arr.shape[1])}}
+
+
+def _impl_load_clip(inp):
+    import soundfile as sf
+    _k, rec = _recording(inp)
+    try:
+        arr, rec, _clip = _load_clip_call(rec, inp)
+    except sf.LibsndfileError:
+        return {"raise": "seek"}
+    return _clip_out(arr, rec)
 
 
 def _impl_load_recording(inp):
@@ -270,7 +400,7 @@ def _impl_recording_of(inp):
     from soundevent.audio import load_recording
     k, rec = _recording(inp)
     rec2, kw = _relocated(rec, inp)
-    arr = load_recording(rec2, **kw)
+    arr = _call("load_recording", load_recording, inp.get("call", "mixed"), {"recording": _via(rec2, inp.get("via", "ctor")), **kw})
     if arr.dims != ("time", "channel") or list(arr.channel.data) != list(range(arr.shape[1])):
         return {"raise": "crash:dims", "trace": f"dims {arr.dims}, channel coordinate {list(arr.channel.data)}"}
     return {"val": {"frames": _codes_out(arr.data), "times": _rats(arr.time.data),
@@ -287,62 +417,77 @@ def _spec_out(spec, audio):
 
 
 def _impl_clip_spectrogram(inp):
-    from soundevent import data
-    from soundevent.audio import load_clip, compute_spectrogram
     import soundfile as sf
     _k, rec = _recording(inp)
-    clip = data.Clip(recording=rec, start_time=float(frac(inp["s"])), end_time=float(frac(inp["e"])))
     try:
-        audio = load_clip(clip)
+        audio, _rec, _clip = _load_clip_call(rec, inp)
     except sf.LibsndfileError:
         return {"raise": "seek"}
-    spec = compute_spectrogram(audio, float(frac(inp["w"])), float(frac(inp["h"])))
+    spec = _call("compute_spectrogram", _fn("compute_spectrogram"), inp.get("call", "mixed"), _spec_given(audio, inp))
     return _spec_out(spec, audio)
 
 
-def _synthetic_audio(n, t0, sr, ch, nostep=False):
+def _time_variable(times, sr=None):
+    """the time coordinate of a hand-built audio array (as the library's own tests build them): the harness's own
+    `xr.Variable`, attrs `units` / `standard_name` / `long_name` and - unless `sr` is None - `step = 1/sr`.
+    (Not built with the library's `create_time_dim_from_array`: inputs never come from the code under test.)"""
+    import xarray as xr
+    attrs = {"units": "s", "standard_name": "time", "long_name": "Time since start of recording"}
+    if sr is not None:
+        attrs["step"] = 1 / sr
+    return xr.Variable(dims="time", data=times, attrs=attrs)
+
+
+def _synthetic_audio(n, t0, sr, ch, nostep=False, layout=None):
     """`nostep`: the time coordinate carries no `step` attribute (the code estimates it from the
-    coordinates; generated only where that mean is exact: power-of-two rates, dyadic start)"""
+    coordinates; generated only where that mean is exact: power-of-two rates, dyadic start).
+    `layout`: `"coords-reordered"` (coordinates registered in another order than the dims), `"transposed"`
+    (channel, time), `"mono"` (time only) - the last two for `resample` only"""
     import numpy as np
     import xarray as xr
-    from soundevent.arrays import create_time_dim_from_array
     times = np.array([float(t0 + Fraction(i, sr)) for i in range(n)], dtype=np.float64)
     data = ((np.arange(n * ch).reshape(n, ch) * 37) % 101 - 50) / 64.0
-    tdim = create_time_dim_from_array(times) if nostep else create_time_dim_from_array(times, samplerate=sr)
+    tdim = _time_variable(times, None if nostep else sr)
+    if layout == "mono":
+        return xr.DataArray(data[:, 0], dims=("time",), coords={"time": tdim})
+    if layout == "transposed":
+        return xr.DataArray(data.T.copy(), dims=("channel", "time"), coords={"channel": range(ch), "time": tdim})
+    if layout == "coords-reordered":
+        return xr.DataArray(data, dims=("time", "channel"), coords={"channel": range(ch), "time": tdim})
     return xr.DataArray(data, dims=("time", "channel"), coords={"time": tdim, "channel": range(ch)})
 
 
 def _impl_spectrogram(inp):
     """compute_spectrogram on a synthetic array: `len` samples from `t0` at `sr` Hz"""
-    from soundevent.audio import compute_spectrogram
-    audio = _synthetic_audio(inp["len"], frac(inp["t0"]), inp["sr"], inp.get("ch", 1), inp.get("nostep", False))
-    spec = compute_spectrogram(audio, float(frac(inp["w"])), float(frac(inp["h"])))
+    audio = _synthetic_audio(inp["len"], frac(inp["t0"]), inp["sr"], inp.get("ch", 1), inp.get("nostep", False),
+                             inp.get("layout"))
+    spec = _call("compute_spectrogram", _fn("compute_spectrogram"), inp.get("call", "mixed"), _spec_given(audio, inp))
     return _spec_out(spec, audio)
 
 
-def _impl_clip_resample(inp):
-    from soundevent import data
-    from soundevent.audio import load_clip
-    from soundevent.audio.operations import resample
-    import soundfile as sf
-    _k, rec = _recording(inp)
-    clip = data.Clip(recording=rec, start_time=float(frac(inp["s"])), end_time=float(frac(inp["e"])))
-    try:
-        audio = load_clip(clip)
-    except sf.LibsndfileError:
-        return {"raise": "seek"}
-    out = resample(audio, inp["target"])
+def _resampled_out(out, audio, n):
+    tax = out.get_axis_num("time")
     return {"val": {"coords": _rats(out.time.data), "step": rat(float(out.time.attrs["step"]))},
             "aux": {"t0": rat(float(audio.time.data[0])) if audio.sizes["time"] else None,
-                    "n": int(audio.sizes["time"]), "shape": list(out.shape)}}
+                    "n": n, "shape": [out.shape[tax]], "dims": list(out.dims), "in_dims": list(audio.dims)}}
+
+
+def _impl_clip_resample(inp):
+    import soundfile as sf
+    _k, rec = _recording(inp)
+    try:
+        audio, _rec, _clip = _load_clip_call(rec, inp)
+    except sf.LibsndfileError:
+        return {"raise": "seek"}
+    out = _call("resample", _fn("resample"), inp.get("call", "mixed"), _resample_given(audio, inp, inp["target"]))
+    return _resampled_out(out, audio, int(audio.sizes["time"]))
 
 
 def _impl_resample(inp):
-    from soundevent.audio.operations import resample
-    audio = _synthetic_audio(inp["n"], frac(inp["t0"]), inp["sr"], inp.get("ch", 1), inp.get("nostep", False))
-    out = resample(audio, inp["target"])
-    return {"val": {"coords": _rats(out.time.data), "step": rat(float(out.time.attrs["step"]))},
-            "aux": {"t0": rat(float(audio.time.data[0])), "n": inp["n"], "shape": list(out.shape)}}
+    audio = _synthetic_audio(inp["n"], frac(inp["t0"]), inp["sr"], inp.get("ch", 1), inp.get("nostep", False),
+                             inp.get("layout"))
+    out = _call("resample", _fn("resample"), inp.get("call", "mixed"), _resample_given(audio, inp, inp["target"]))
+    return _resampled_out(out, audio, inp["n"])
 
 
 def _impl_resample_chain(inp):
@@ -392,10 +537,18 @@ def _tm_recording(inp):
 
 def _tm_recording_of(inp):
     # duration as Recording.from_file computes it: (frames / file rate) / expansion, in binary64
-    n = len(inp["file"]["frames"]) if "frames" in inp["file"] else inp["file"]["n"]
+    # (a directly built recording, `"rsr"`: frames / samplerate, as `_recording` stores it)
+    n = _nframes(inp["file"])
+    if "rsr" in inp:
+        return {"file": inp["file"], "sr": inp["rsr"], "duration": rat(n / inp["rsr"])}
     te = frac(inp.get("te", "1"))
     d = (n / inp["fsr"]) / (int(te) if te.denominator == 1 else float(te))
     return {"file": inp["file"], "sr": _sr(inp), "duration": rat(d)}
+
+
+def _tm_spec_opt(inp):
+    o = inp.get("opts") or {}
+    return {**_tm_spec(inp), "padded": bool(o.get("padded", True)), "ext": o.get("boundary", "zeros") is not None}
 
 
 # ---------------------------------------------------------------------- comparison
@@ -634,7 +787,7 @@ def _holds_load_clip(ctx, inp, io):
         return _m("number of frames and of time stamps differ", f"{n} frames, {len(v['times'])} time stamps")
     s, e = frac(inp["s"]), frac(inp["e"])
     safe = _clip_safe(inp)
-    if io["aux"]["rec_sr"] != sr:
+    if io["aux"]["rec_sr"] != sr and "rsr" not in inp:
         ctx.contract("from_file.samplerate", False, inp, io["aux"]["rec_sr"])
     if safe and n != math.floor((e - s) * sr):
         return _m("frame count is not floor(duration x samplerate)", f"{n} frames, floor = {math.floor((e - s) * sr)}")
@@ -652,19 +805,34 @@ def _holds_load_clip(ctx, inp, io):
         return msg
     if not _near(Fraction(1, sr), float(frac(v["step"]))):
         return _m("advertised step of the clip is not 1/samplerate", f"{float(frac(v['step']))!r}, samplerate {sr}")
-    # frame i and its time stamp are those of index off + i of the loaded recording, zero past its end
+    # frame i and its time stamp are those of index off + i of the loaded recording, zero past its end - and the
+    # frames are those the harness wrote into the file (independent of both loaders)
     rdata, rtimes = _recording_data(inp)
     codes = np.array([[float(frac(x)) if isinstance(x, str) else x for x in row] for row in v["frames"]], dtype=float)
     N = rdata.shape[0]
-    for i in range(n):
-        j = off + i
-        want = rdata[j] * 32768.0 if j < N else np.zeros(codes.shape[1])
-        if not np.array_equal(codes[i], want):
-            return _m("frame differs from that frame of load_recording / the zero fill",
-                      f"frame {i} = {v['frames'][i]} differs from "
-                      + (f"frame {j} of load_recording {want.tolist()}" if j < N else "the zero fill past the end of file"))
-        if j < N and not tol_eq(Fraction(float(rtimes[j])), float(frac(v["times"][i]))):
-            return _m("time stamp differs from that of the same frame of load_recording", f"time stamp {i} = {float(frac(v['times'][i]))!r}, load_recording's index {j} has {float(rtimes[j])!r}")
+    fcodes = _FILES[_file_key(inp["file"], inp["fsr"])][1]
+    for what, src, scale in (("load_recording", rdata, 32768.0), ("the file as written", fcodes, 1.0)):
+        M = src.shape[0]
+        want = np.zeros_like(codes)
+        k = max(0, min(n, M - off))
+        if off >= 0 and k > 0:
+            want[:k] = src[off:off + k] * scale
+        if want.shape != codes.shape or not np.array_equal(codes, want):
+            bad = next((i for i in range(n) if want.shape != codes.shape or not np.array_equal(codes[i], want[i])), 0)
+            j = off + bad
+            return _m("frame differs from that frame of load_recording / the zero fill" if src is rdata
+                      else "frame differs from that frame of the file / the zero fill",
+                      f"frame {bad} = {v['frames'][bad]} differs from "
+                      + (f"frame {j} of {what} {want[bad].tolist()}" if j < M else "the zero fill past the end of file"))
+    k = max(0, min(n, N - off))
+    if k > 0:
+        got = np.array([float(frac(x)) for x in v["times"][:k]])
+        ref = np.asarray(rtimes[off:off + k], dtype=float)
+        badt = np.nonzero(np.abs(got - ref) > 2.0 ** -40 * np.maximum(1.0, np.abs(ref)))[0]
+        if badt.size:
+            i = int(badt[0])
+            return _m("time stamp differs from that of the same frame of load_recording",
+                      f"time stamp {i} = {got[i]!r}, load_recording's index {off + i} has {ref[i]!r}")
     return None
 
 
@@ -677,8 +845,9 @@ def _holds_recording(ctx, inp, io):
     if "aux" in io:
         n = len(v["frames"])
         sr = _sr(inp)
-        ctx.contract("from_file.samplerate", io["aux"]["sr"] == sr, inp, io["aux"])
-        ctx.contract("from_file.duration", abs(frac(io["aux"]["duration"]) * sr - n) < Fraction(1, 2), inp, io["aux"])
+        if "rsr" not in inp:
+            ctx.contract("from_file.samplerate", io["aux"]["sr"] == sr, inp, io["aux"])
+            ctx.contract("from_file.duration", abs(frac(io["aux"]["duration"]) * sr - n) < Fraction(1, 2), inp, io["aux"])
         want = _codes(inp["file"]).tolist()
         if v["frames"] != want:
             return _m("load_recording does not return the frames of the file")
